@@ -57,9 +57,11 @@ def gen_bitstream(rng, count, exhaustive_pairs=True):
         if rng.random() < 0.2: ops += ["ws", "w 1 1"] if cap >= 1 else []
         if rng.random() < 0.35:
             # the buffers' comparison operators: snapshot, then rewrite the same / a slightly different content and compare
-            w0 = min(cap, 8); same = rng.random() < 0.4
-            v0 = rng.randrange(1 << w0); v1 = v0 if same else v0 ^ (1 << rng.randrange(w0))
-            tailw = min(cap - w0, 16); tv = rng.randrange(1 << tailw) if tailw else 0; tv2 = tv if (same or rng.random() < 0.5) else tv ^ 1
+            # the difference (if any) sits in the first byte only, in a later byte only, or in both: a comparison that looks at one end only must be caught
+            w0 = min(cap, 8); mode = rng.choice(["same", "first", "later", "both"])
+            v0 = rng.randrange(1 << w0); v1 = v0 if mode in ("same", "later") else v0 ^ (1 << rng.randrange(w0))
+            tailw = min(cap - w0, 24); tv = rng.randrange(1 << tailw) if tailw else 0
+            tv2 = tv if (mode in ("same", "first") or not tailw) else tv ^ (1 << rng.randrange(tailw))
             ops += ["ws", "w %d %d" % (w0, v0)] + (["w %d %d" % (tailw, tv)] if tailw else []) + ["snap", "eq", "ws", "w %d %d" % (w0, v1)] + (["w %d %d" % (tailw, tv2)] if tailw else []) + ["eq"]
         lines.append("bs %d : %s" % (cap, " ; ".join(ops)))
     # streams opened at a cursor: the write stream's constructor clears the whole buffer whatever the cursor (so a reused, dirty buffer must
